@@ -65,8 +65,16 @@ theorem readRecs_encRecs (es : List Rec) (h : ∀ e ∈ es, e.WF) (fuel : Nat) (
       simp only [readRecs, encRecs, hne, decRec_encRec e he, ih']
       simp
 
-/-- the reader on a well-formed file: skip `after + 1 - first` records, yield the rest -/
+theorem seq_fits : 256 ^ u64W ≤ seqMod := by decide
+
+theorem wrap_skip (a f M : Nat) (h1 : f ≤ a + 1) (h2 : a + 1 < M) : (a + M - f + 1) % M = a + 1 - f := by
+  have : a + M - f + 1 = M + (a + 1 - f) := by omega
+  rw [this, Nat.add_mod_left, Nat.mod_eq_of_lt (by omega)]
+
+/-- the reader on a well-formed file: skip `after + 1 - first` records, yield the rest
+(`after + 1 < seqMod`: the marker arithmetic does not wrap) -/
 theorem readAll_encRecs (e : Rec) (es : List Rec) (h : ∀ x ∈ e :: es, x.WF) (after : Nat)
+    (hw : after + 1 < seqMod)
     (h1 : e.seq ≤ after + 1) (h2 : after + 1 - e.seq ≤ (e :: es).length) :
     readAll (encRecs (e :: es)) after = .ok (((e :: es).drop (after + 1 - e.seq)).map Rec.toRead) := by
   have hpos := encRec_length_pos e
@@ -80,12 +88,12 @@ theorem readAll_encRecs (e : Rec) (es : List Rec) (h : ∀ x ∈ e :: es, x.WF) 
     exact readNat_leBytes u64W _ (h e (by simp)).seq _
   unfold readAll
   simp only [hne, Bool.false_eq_true, if_false, hfirst]
-  have hnp : ¬ (after + 1 < e.seq) := by omega
-  simp only [hnp, if_false, skipRecs_encRecs (e :: es) h _ h2]
+  have hnp : ¬ ((after + 1) % seqMod < e.seq) := by rw [Nat.mod_eq_of_lt hw]; omega
+  simp only [hnp, if_false, wrap_skip after e.seq seqMod h1 hw, skipRecs_encRecs (e :: es) h _ h2]
   have hwf' : ∀ x ∈ (e :: es).drop (after + 1 - e.seq), x.WF := fun x hx => h x (List.mem_of_mem_drop hx)
   rw [readRecs_encRecs _ hwf' _ (by have := length_le_encRecs ((e :: es).drop (after + 1 - e.seq)); omega)]
 
-theorem readAll_panic (e : Rec) (es : List Rec) (he : e.WF) (after : Nat) (h1 : after + 1 < e.seq) :
+theorem readAll_panic (e : Rec) (es : List Rec) (he : e.WF) (after : Nat) (h1 : (after + 1) % seqMod < e.seq) :
     readAll (encRecs (e :: es)) after = .panic := by
   have hpos := encRec_length_pos e
   have hne : (encRecs (e :: es)).isEmpty = false := by
@@ -259,7 +267,8 @@ theorem filter_take_nil (all : List Rec) (n after T : Nat) (h : ∀ e ∈ all.ta
 /-- a saved WAL replays exactly the records appended after the start marker -/
 theorem replay_after (ops : List Op) (id m f after : Nat)
     (hmono : MonoSeqs 0 ops) (hcons : Consecutive f (appended ops)) (hwf : ∀ e ∈ appended ops, e.WF)
-    (hT : maxTrunc ops ≤ after) (hlo : f ≤ after + 1) (hhi : after + 1 ≤ f + (appended ops).length) :
+    (hT : maxTrunc ops ≤ after) (hlo : f ≤ after + 1) (hhi : after + 1 ≤ f + (appended ops).length)
+    (hw : after + 1 < seqMod) :
     readAll ((Writer.new id m).run ops).save after
       = .ok (((appended ops).filter (fun e => decide (after < e.seq))).map Rec.toRead) := by
   have hinv := run_inv ops (Writer.new id m) [] 0 (new_inv id m) hmono
@@ -296,7 +305,7 @@ theorem replay_after (ops : List Op) (id m f after : Nat)
         have := hck.1
         omega
     have h2 : after + 1 - e.seq ≤ (e :: es).length := by rw [hlen, hseq]; omega
-    rw [readAll_encRecs e es hwf' after h1 h2, hseq, drop_eq_filter (f + n) (e :: es) hc' after]
+    rw [readAll_encRecs e es hwf' after hw h1 h2, hseq, drop_eq_filter (f + n) (e :: es) hc' after]
 
 /-- nothing newer than every truncation is ever lost, and what a save contains is a suffix of the appended records -/
 theorem writer_retains (ops : List Op) (id m : Nat) (hmono : MonoSeqs 0 ops) :
